@@ -74,3 +74,20 @@ Section DescCmp.
     - exists Gt. split; [reflexivity|]. split; [discriminate|]. intro H. injection H as <- _. rewrite (to_refl _ to_kx) in E. discriminate.
   Qed.
 End DescCmp.
+
+(* ------------------------------------------------------------------ the cache is not an input of == / cmp *)
+Theorem cdesc_eq_history_independent meq a b c c' :
+  cdesc_eq meq (mkCD a c) (mkCD b c') = desc_eq meq a b.
+Proof. reflexivity. Qed.
+
+Theorem cdesc_cmp_history_independent mcmp kf kx a b c c' :
+  cdesc_cmp mcmp kf kx (mkCD a c) (mkCD b c') = desc_cmp mcmp kf kx a b.
+Proof. reflexivity. Qed.
+
+(* == of descriptor values, whatever their histories (fresh, warmed, cloned), is equality of the structures *)
+Theorem cdesc_eq_structural x y : cdesc_eq eq_iter x y = true <-> cd_desc x = cd_desc y.
+Proof. unfold cdesc_eq. apply desc_eq_iter_structural. Qed.
+
+Theorem cdesc_warm_clone_eq spend x :
+  cdesc_eq eq_iter (cd_clone (cd_warm spend x)) x = true /\ cdesc_eq eq_iter (cd_warm spend x) (cd_fresh (cd_desc x)) = true.
+Proof. split; apply cdesc_eq_structural; reflexivity. Qed.
